@@ -339,24 +339,16 @@ def family(ctx):
                 res[pred] = r
             own = 'is' + fam
             ctx.ob('FAMILY', rel + '::' + owner + own, 'a generic %s cell satisfies %s' % (fam, own), res.get(own) is True, str(res), key='%s own %s' % (rel, ctor))
-            order = ['iscubic', 'ishexagonal', 'istetragonal', 'isrhombohedral', 'isorthorhombic', 'ismonoclinic', 'istriclinic']
             idf = ctx.fn(rel, owner + 'identifyfamily')
-            # first true predicate in the order identifyfamily tests them (order read from the source)
-            tests = []
-            cur = [s for s in idf.body if isinstance(s, ast.If)]
-            ctx.need(len(cur) == 1, 'identifyfamily is no longer one if/elif chain')
-            node = cur[0]
-            while True:
-                t = norm(node.test)
-                pname = [p for p in order if p + '(' in t]
-                rv = [s for s in node.body if isinstance(s, ast.Return)]
-                ctx.need(len(pname) == 1 and len(rv) == 1 and isinstance(rv[0].value, ast.Constant), 'identifyfamily arm outside the vocabulary: %s' % t)
-                tests.append((pname[0], rv[0].value.value))
-                if len(node.orelse) == 1 and isinstance(node.orelse[0], ast.If):
-                    node = node.orelse[0]
-                else:
-                    break
-            first = next((name for p, name in tests if res.get(p) is True), None)
+            # identifyfamily itself, interpreted on the same model cell (the predicates are the class's / module's own)
+            ev = SymEval(module_aliases(mod))
+            ev.np_override = {'numpy.isclose': isclose}
+            ev.globals = {'warnings': _Warn(), 'warnmsg': '', 'PendingDeprecationWarning': 'PendingDeprecationWarning'}
+            boxm = SymObj(cls if rel == BOX else None, dict(pvals), 'self')
+            try:
+                first = _ret(ev.run_fn(idf, [boxm], {}))
+            except Opaque as e:
+                raise AnalysisError('%sidentifyfamily on a %s cell: %s' % (owner, ctor, e))
             ctx.ob('FAMILY', rel + '::' + owner + 'identifyfamily', 'a generic %s cell is identified as %s' % (fam, fam), first == fam, 'identified as %s (predicates %s)' % (first, res), node=idf, key='%s identify %s' % (rel, ctor))
     ctx.floor('FAMILY', n, 7)
 
